@@ -10,5 +10,6 @@ import (
 func TestMain(m *testing.M) {
 	code := m.Run()
 	sim.FlushStats()
+	sim.CleanupScratch()
 	os.Exit(code)
 }
